@@ -5,6 +5,8 @@
             models: <<[fold, feat_pass, best_feat: STRING, desc, trained]>> -- as reported by the returned fold models
             fits: <<[model, train: <<ids>>]>>, train_thr: <<num, den>>, direction: "" | feature name  -- training sets seen by Model.fit
             raised: STRING, descs: <<BOOLEAN per file>>,
+            has_ref, same_as_ref: BOOLEAN                                 -- the same input was also analysed at a fresh path / the two
+                                                                              returns (error type, directions, every score) are identical
             scores: <<[id, num, den, ok, nan, rank]>>]                     -- returned score (exact rational) and its dense
                                                                               rank among the returned scores of its file
    SafetyNet: unless override, the returned scores (with the returned direction) accept at least feat_total genuine
@@ -55,6 +57,9 @@ Check(R, S) ==     \* R: id -> row, S: id -> returned score record
       SafetyNet |-> (T.raised = "" /\ DOMAIN S = Ids /\ NM >= 1 /\ \A x \in Ids : ~S[x].nan) =>
                        (T.override \/ Accepted >= FeatTotal \/ IsBestFeature),
       FeatPassReported |-> (T.raised = "" /\ NM >= 1) => Reported,
+      \* the decision is taken from THIS input (its genuine labels): the same input analysed at a path that held another table
+      \* before (same rows, opposite labels) returns exactly what it returns at a fresh path
+      DecisionFromThisInput |-> T.has_ref => T.same_as_ref,
       info |-> IF T.raised = "" /\ DOMAIN S = Ids /\ NM >= 1
                THEN <<Accepted, FeatTotal, IsBestFeature>> ELSE <<0, 0, FALSE>>]
 \* explicit (TLCEval): a lazy function would repeat the CHOOSE at every application
@@ -62,6 +67,6 @@ RowsF == TLCEval([x \in {T.rows[i].id : i \in 1..Len(T.rows)} |-> T.rows[CHOOSE 
 ScoresF == TLCEval([x \in {T.scores[i].id : i \in 1..Len(T.scores)} |-> T.scores[CHOOSE i \in 1..Len(T.scores) : T.scores[i].id = x]])
 Init == tid \in 1..Len(Traces)
 Spec == Init /\ [][UNCHANGED tid]_tid
-Verdict == LET C == Check(RowsF, ScoresF)  F == {c \in {"Returned", "SafetyNet", "FeatPassReported"} : ~C[c]} IN
+Verdict == LET C == Check(RowsF, ScoresF)  F == {c \in {"Returned", "SafetyNet", "FeatPassReported", "DecisionFromThisInput"} : ~C[c]} IN
            PrintT(<<"VERDICT", T.tid, IF F = {} THEN "accept" ELSE "reject", F, C.info>>)
 =============================================================================
